@@ -54,8 +54,11 @@ pub struct PersistedStore {
 
 impl From<PersistedStore> for Store {
     fn from(value: PersistedStore) -> Self {
+        let mut data = value.data;
+        // a persisted node may carry no value (e.g. "v": null): do not keep empty nodes around
+        Store::nprune(&mut data);
         let mut store = Store {
-            data: value.data,
+            data,
             ..Default::default()
         };
         store.count_entries();
@@ -1108,7 +1111,18 @@ impl Store {
         }
     }
 
-    pub(crate) fn reset(&mut self, data: StoreNode) {
+    /// Recursively removes nodes that have neither a value nor children
+    fn nprune(node: &mut StoreNode) {
+        if let Some(tree) = node.tree.as_mut() {
+            for child in tree.values_mut() {
+                Store::nprune(child);
+            }
+        }
+        node.trim();
+    }
+
+    pub(crate) fn reset(&mut self, mut data: StoreNode) {
+        Store::nprune(&mut data);
         self.data = data;
         self.count_entries();
     }
